@@ -29,6 +29,7 @@ def run(chk, F):
     chk.guard("front-end-list-protocol", "cli fmt", lambda: list_protocol(chk, F))
     chk.guard("no-unbounded-external-recursion", "workspace", lambda: external_recursion(chk, F))
     chk.guard("display-power-bounded", "Number::prettify", lambda: display_power(chk, F))
+    chk.guard("alias-walk-bounded", "expand_aliases", lambda: alias_walk(chk, F))
 
 
 def external_recursion(chk, F):
@@ -99,6 +100,63 @@ def display_power(chk, F):
                  "prefixes are raised to the unit's power only when its magnitude is below a constant bound",
                  "prettify raises the SI prefixes to the unit's power without bounding it: `m^100000` (exact result `1 meter^100000`) "
                  "does not answer within minutes, `units for s^100000` and error messages naming such a unit hang the same way")
+
+
+def alias_walk(chk, F):
+    """expand_aliases follows a name to its definition, or to the definition of its *canonical* form.  The loader guarantees that
+    the alias edges have no cycle, but canonicalize() is a second kind of edge (`km` -> `kilometer`), and with a user definition
+    `kilometer km` the two together loop: the progress asserts panicked, and with one more alias the walk never ended.  Rule: every
+    cycle of the function's CFG passes through the `newly inserted` edge of a BTreeSet/HashSet::insert test (a visited set), i.e.
+    once those edges are removed the CFG is acyclic."""
+    fn = F.find("rink_core", "runtime::eval::expand_aliases")
+    fk = "rink_core::runtime::eval::expand_aliases"
+
+    def acc(kind, ap, info):
+        r = ap[0]
+        if kind == "bool" and r[0] == "call" and r[1].endswith(("BTreeSet::<T, A>::insert", "HashSet::<T, S, A>::insert", "HashSet::<T, S>::insert")):
+            return {"true"}
+        return None
+    cut = set()
+    matched = 0
+    for s_, kind, ap, info in k2.switch_tests(fn):
+        flip = False
+        if kind == "bool":
+            ap, flip = k2.peel_not(ap)
+        a = acc(kind, ap, info)
+        if a is None:
+            continue
+        if flip:
+            a = {{"true": "false", "false": "true"}[x] for x in a}
+        matched += 1
+        for lab, tgt, name in k2.edge_names(fn, s_, kind, info):
+            if set(name.split("|")) & a:
+                cut.add((s_, tgt))
+    # remaining cycles among non-cleanup blocks
+    n = len(fn.blocks)
+    succ = {b: [t for lab, t in fn.succs(b) if (b, t) not in cut] for b in range(n) if not fn.blocks[b]["cleanup"]}
+    color = {}
+    cyc = []
+
+    def dfs(b):
+        color[b] = 1
+        for t in succ.get(b, []):
+            if t not in succ:
+                continue
+            if color.get(t) == 1:
+                cyc.append((b, t))
+            elif t not in color:
+                dfs(t)
+        color[b] = 2
+    import sys
+    sys.setrecursionlimit(10000)
+    dfs(0)
+    loops0 = any(True for b in succ for t in succ[b] if t <= b)   # the function has a loop at all
+    if not loops0 and not cyc:
+        raise AnchorLost("expand_aliases has no loop: the alias walk moved elsewhere")
+    chk.decide(matched >= 1 and not cyc, "alias-walk-bounded", fk, "every-cycle-passes-a-visited-set", fn.where(cyc[0][0]) if cyc else fn.where(),
+               "every iteration of the walk inserts the current name into a visited set and stops when it was there already",
+               "the alias walk has a cycle that no visited-set test bounds (%d back edge(s)): with the user definition `kilometer km` the queries "
+               "`kilometer`, `km` panic on a progress assert, with `kliq km` / `kilometer kliq` they never return" % len(cyc))
 
 
 def usable(chk, F):
